@@ -24,6 +24,30 @@ theorem bind_ok {α β} (x : M α) (f : α → M β) (gs : GS) (r : β × GS) (h
   | error e => rw [hx] at h; simp at h
   | ok v => rw [hx] at h; exact ⟨v.1, v.2, rfl, h⟩
 
+/-! ### The pool: constants and string literals generated so far -/
+
+inductive PoolItem where
+  | const (v : Int) (l : String)
+  | str (l : String) (bs : List Byte)
+
+/-- Everything the generator has put into the data pool: constants with their labels, string
+    literals with theirs. -/
+def GS.items (gs : GS) : List PoolItem :=
+  (gs.constMap.map fun e => PoolItem.const e.1 e.2) ++ (gs.strs.map fun e => PoolItem.str e.1 e.2)
+
+theorem const_mem_items (gs : GS) (v : Int) (l : String) : PoolItem.const v l ∈ gs.items ↔ (v, l) ∈ gs.constMap := by
+  simp [GS.items]
+
+theorem str_mem_items (gs : GS) (l : String) (bs : List Byte) : PoolItem.str l bs ∈ gs.items ↔ (l, bs) ∈ gs.strs := by
+  simp [GS.items]
+
+theorem items_mono {gs gs' : GS} (h1 : ∀ e ∈ gs.constMap, e ∈ gs'.constMap) (h2 : ∀ e ∈ gs.strs, e ∈ gs'.strs) :
+    ∀ x ∈ gs.items, x ∈ gs'.items := by
+  intro x hx
+  cases x with
+  | const v l => rw [const_mem_items] at hx ⊢; exact h1 _ hx
+  | str l bs => rw [str_mem_items] at hx ⊢; exact h2 _ hx
+
 /-! ### Leaves -/
 
 def constCode (reg : Reg) (v : Int) : Code :=
@@ -64,6 +88,20 @@ theorem genConstPool_inv (value : Int) (gs gs' : GS) (label : String) (h : genCo
     rw [← h.1, ← h.2]
     refine ⟨by simp, rfl, rfl, rfl, fun e he => by simp [he]⟩
 
+theorem genConstPool_strs (value : Int) (gs gs' : GS) (label : String) (h : genConstPool value gs = .ok (label, gs')) :
+    gs'.strs = gs.strs := by
+  unfold genConstPool at h
+  msimp at h
+  cases hf : gs.constMap.find? (fun e => e.1 = value) with
+  | some e =>
+    rw [hf] at h
+    simp only [StateT.pure, pure, Except.pure, Except.ok.injEq, Prod.mk.injEq] at h
+    rw [← h.2]
+  | none =>
+    rw [hf] at h
+    simp only [StateT.pure, StateT.bind, StateT.set, pure, Except.pure, Except.bind, bind, Except.ok.injEq, Prod.mk.injEq] at h
+    rw [← h.2]
+
 theorem genConst_inv (reg : Reg) (v : CInt) (gs gs' : GS) (code : Code) (h : genConst reg v gs = .ok (code, gs')) :
     gs'.offset = gs.offset ∧ gs'.size = gs.size ∧ gs'.labelCount = gs.labelCount ∧
     ((v.toInt > -65536 ∧ v.toInt < 65536 ∧ gs' = gs ∧ code = constCode reg v.toInt) ∨
@@ -90,6 +128,32 @@ theorem genString_inv (reg : Reg) (bs : List Byte) (gs gs' : GS) (code : Code) (
   msimp at h
   cases reg <;> simp only [StateT.pure, pure, Except.pure, Except.ok.injEq, Prod.mk.injEq] at h <;>
     (rw [← h.2]; exact ⟨rfl, rfl, rfl, rfl⟩)
+
+def strCode (reg : Reg) (label : String) : Code :=
+  match reg with
+  | .A => [lLDAC label]
+  | .B => [lLDBC label]
+
+/-- The literal is in the pool afterwards, under the label the code refers to. -/
+theorem genString_items (reg : Reg) (bs : List Byte) (gs gs' : GS) (code : Code) (h : genString reg bs gs = .ok (code, gs')) :
+    (∀ x ∈ gs.items, x ∈ gs'.items) ∧
+    PoolItem.str ("_string" ++ toString gs.stringCount) bs ∈ gs'.items ∧
+    code = strCode reg ("_string" ++ toString gs.stringCount) := by
+  cases reg with
+  | A =>
+    unfold genString at h
+    msimp at h
+    simp only [StateT.pure, pure, Except.pure, Except.ok.injEq, Prod.mk.injEq] at h
+    rw [← h.2, ← h.1]
+    refine ⟨items_mono (fun _ he => he) (fun e he => by simp [he]), ?_, rfl⟩
+    rw [str_mem_items]; simp
+  | B =>
+    unfold genString at h
+    msimp at h
+    simp only [StateT.pure, pure, Except.pure, Except.ok.injEq, Prod.mk.injEq] at h
+    rw [← h.2, ← h.1]
+    refine ⟨items_mono (fun _ he => he) (fun e he => by simp [he]), ?_, rfl⟩
+    rw [str_mem_items]; simp
 
 theorem genExpr_num (ctx : Ctx) (v : Word) (c : Option CInt) (reg : Reg) :
     genExpr ctx (.num v c) reg = genConst reg v := by unfold genExpr; rfl
